@@ -38,6 +38,23 @@ func runC10(tape *kernel.Tape) *kernel.Outcome {
 
 var c10Keys = []string{"1", "2", "3", "1.", "2.5", "1(uint64)", "\"a\"", "\"b\"", "\"1\"", "null(int64)", "null(string)", "true", "10.0.0.1", ""}
 
+var c10Mixed = []string{"1", "2", "\"s\"", "\"t\"", "2.5", "1", "10.0.0.1", "true"}
+
+// setElems renders the elements of a set value, looking through a union
+// element type, sorted.
+func setElems(d zed.Value) []string {
+	var out []string
+	inner := zed.InnerType(zed.TypeUnder(d.Type()))
+	if inner == nil || d.IsNull() {
+		return out
+	}
+	for it := d.Bytes().Iter(); !it.Done(); {
+		out = append(out, zson.FormatValue(zed.NewValue(inner, it.Next()).Under()))
+	}
+	sort.Strings(out)
+	return out
+}
+
 func c10GroupBy(tape *kernel.Tape) *kernel.Outcome {
 	kn, wl := tape.Stream("knobs"), tape.Stream("workload")
 	out := &kernel.Outcome{}
@@ -57,6 +74,8 @@ func c10GroupBy(tape *kernel.Tape) *kernel.Outcome {
 			fs = append(fs, "k:"+k)
 		}
 		fs = append(fs, fmt.Sprintf("g:%d", wl.Intn(3)), fmt.Sprintf("v:%d", wl.Intn(9)-3), fmt.Sprintf("u:%d", i))
+		// w: values of several types, so that union() partials are sets of a union type.
+		fs = append(fs, "w:"+c10Mixed[wl.Intn(len(c10Mixed))])
 		texts = append(texts, "{"+strings.Join(fs, ",")+"}")
 	}
 	desc.Values = n
@@ -68,7 +87,7 @@ func c10GroupBy(tape *kernel.Tape) *kernel.Outcome {
 	if kn.Chance(1, 4) {
 		where = " where v > 0"
 	}
-	program := fmt.Sprintf("n:=count()%s, s:=sum(v), lo:=min(v), hi:=max(v), vs:=union(v) by %s", where, by)
+	program := fmt.Sprintf("n:=count()%s, s:=sum(v), lo:=min(v), hi:=max(v), vs:=union(v), ws:=union(w) by %s", where, by)
 	desc.Program = program
 	limits := []int{groupby.DefaultLimit}
 	for _, l := range []int{1, 2, 3, 7} {
@@ -84,6 +103,7 @@ func c10GroupBy(tape *kernel.Tape) *kernel.Outcome {
 		n, s, lo, hi int64
 		any          bool
 		vs           map[int64]bool
+		ws           map[string]bool
 		key          string
 	}
 	ref := map[string]*agg{}
@@ -103,7 +123,7 @@ func c10GroupBy(tape *kernel.Tape) *kernel.Outcome {
 		}
 		a := ref[key]
 		if a == nil {
-			a = &agg{vs: map[int64]bool{}, key: key}
+			a = &agg{vs: map[int64]bool{}, ws: map[string]bool{}, key: key}
 			ref[key] = a
 		}
 		val := v.Deref("v").Int()
@@ -119,6 +139,9 @@ func c10GroupBy(tape *kernel.Tape) *kernel.Outcome {
 		}
 		a.any = true
 		a.vs[val] = true
+		if w, ok := fieldOf(v, "w"); ok {
+			a.ws[zson.FormatValue(w)] = true
+		}
 	}
 	desc.Groups = len(ref)
 	render := func(a *agg) string {
@@ -127,7 +150,12 @@ func c10GroupBy(tape *kernel.Tape) *kernel.Outcome {
 			vs = append(vs, int(x))
 		}
 		sort.Ints(vs)
-		return fmt.Sprintf("%s n=%d s=%d lo=%d hi=%d vs=%v", a.key, a.n, a.s, a.lo, a.hi, vs)
+		var ws []string
+		for x := range a.ws {
+			ws = append(ws, x)
+		}
+		sort.Strings(ws)
+		return fmt.Sprintf("%s n=%d s=%d lo=%d hi=%d vs=%v ws=%v", a.key, a.n, a.s, a.lo, a.hi, vs, ws)
 	}
 	var want []string
 	for _, a := range ref {
@@ -161,7 +189,12 @@ func c10GroupBy(tape *kernel.Tape) *kernel.Outcome {
 				if twoKeys {
 					key += " g=" + keyText(v, "g")
 				}
-				a := &agg{key: key, vs: map[int64]bool{}}
+				a := &agg{key: key, vs: map[int64]bool{}, ws: map[string]bool{}}
+				if d, ok := fieldOf(v, "ws"); ok {
+					for _, e := range setElems(d) {
+						a.ws[e] = true
+					}
+				}
 				intOf := func(f string) int64 {
 					d := v.Deref(f)
 					if d == nil || d.IsNull() {
@@ -208,12 +241,28 @@ func c10Join(tape *kernel.Tape) *kernel.Outcome {
 	rng := []int{4, 2, 12}[kn.Intn(3)]
 	type row struct {
 		key int
+		flt bool // the key is written as a float64 (1. joins with 1)
 		id  string
+	}
+	mixed := kn.Chance(1, 2)
+	nulls := kn.Chance(1, 3)
+	keyText := func(r row) string {
+		if r.key < 0 {
+			return "null(int64)" // joins with null (and only with null)
+		}
+		if r.flt {
+			return fmt.Sprintf("%d.", r.key)
+		}
+		return fmt.Sprint(r.key)
 	}
 	gen := func(prefix string, n int) []row {
 		var rs []row
 		for i := 0; i < n; i++ {
-			rs = append(rs, row{wl.Intn(rng), fmt.Sprintf("%s%d", prefix, i)})
+			r := row{wl.Intn(rng), mixed && wl.Chance(1, 3), fmt.Sprintf("%s%d", prefix, i)}
+			if nulls && wl.Chance(1, 6) {
+				r.key, r.flt = -1, false
+			}
+			rs = append(rs, r)
 		}
 		return rs
 	}
@@ -229,15 +278,19 @@ func c10Join(tape *kernel.Tape) *kernel.Outcome {
 	kind := []string{"inner", "left", "right", "anti"}[kn.Intn(4)]
 	var ltexts []string
 	for _, r := range left {
-		ltexts = append(ltexts, fmt.Sprintf("{a:%d,sa:%q}", r.key, r.id))
+		ltexts = append(ltexts, fmt.Sprintf("{a:%s,sa:%q}", keyText(r), r.id))
 	}
 	var rb strings.Builder
 	for _, r := range right {
-		fmt.Fprintf(&rb, "{b:%d,sb:%q}\n", r.key, r.id)
+		fmt.Fprintf(&rb, "{b:%s,sb:%q}\n", keyText(r), r.id)
 	}
-	program := fmt.Sprintf("%s join (file B.zson) on a=b hit:=sb", kind)
+	// Explicit sorts in front of either input tell the compiler the inputs'
+	// order (ascending or descending), which selects the join's comparator.
+	pre := []string{"", "", "sort a | ", "sort -r a | "}[kn.Intn(4)]
+	post := []string{"", "", " | sort b", " | sort -r b"}[kn.Intn(4)]
+	program := fmt.Sprintf("%s%s join (file B.zson%s) on a=b hit:=sb", pre, kind, post)
 	if kind == "right" {
-		program = "right join (file B.zson) on a=b hit:=sa"
+		program = fmt.Sprintf("%sright join (file B.zson%s) on a=b hit:=sa", pre, post)
 	}
 	desc.Program = program
 	// ---- nested-loop reference ----
@@ -250,12 +303,12 @@ func c10Join(tape *kernel.Tape) *kernel.Outcome {
 				if l.key == r.key {
 					matched = true
 					if kind != "anti" {
-						want = append(want, fmt.Sprintf("{a:%d,sa:%q,hit:%q}", l.key, l.id, r.id))
+						want = append(want, fmt.Sprintf("{a:%s,sa:%q,hit:%q}", keyText(l), l.id, r.id))
 					}
 				}
 			}
 			if !matched && kind != "inner" {
-				want = append(want, fmt.Sprintf("{a:%d,sa:%q}", l.key, l.id))
+				want = append(want, fmt.Sprintf("{a:%s,sa:%q}", keyText(l), l.id))
 			}
 		}
 	case "right":
@@ -264,11 +317,11 @@ func c10Join(tape *kernel.Tape) *kernel.Outcome {
 			for _, l := range left {
 				if l.key == r.key {
 					matched = true
-					want = append(want, fmt.Sprintf("{b:%d,sb:%q,hit:%q}", r.key, r.id, l.id))
+					want = append(want, fmt.Sprintf("{b:%s,sb:%q,hit:%q}", keyText(r), r.id, l.id))
 				}
 			}
 			if !matched {
-				want = append(want, fmt.Sprintf("{b:%d,sb:%q}", r.key, r.id))
+				want = append(want, fmt.Sprintf("{b:%s,sb:%q}", keyText(r), r.id))
 			}
 		}
 	}
